@@ -16,6 +16,12 @@ URL_FORMS = ["absent", "list0", "list1", "list2", "string"]
 EXTRA = ["plain", "extra"]
 
 
+# whole, realistic URLs (what matters here: how a URL *ends*)
+REALISTIC = ["http://tracker.example.net", "udp://open.tracker.org:6969/announce",
+             "http://localhost/tracker", "https://t.example/a?passkey=x&y=t",
+             "http://seed.example/dir/", "http://r", "wss://tracker.example/tr"]
+
+
 def strings(tier):
     toks = TOKENS[:12] if tier == "quick" else TOKENS
     out = []
@@ -28,7 +34,7 @@ def strings(tier):
             if s in (".", "..") or "/" in s and False:
                 continue
             out.append(s)
-    return out
+    return out + REALISTIC
 
 
 def payload_tree(seed, single):
@@ -46,8 +52,14 @@ def build(version, name, s, ann, url, extra, seed, single):
         meta = model.ref_v2(name, tree, P0, 16384)
     else:
         meta = model.ref_hybrid(name, tree, P0, 16384)
-    t = [model.u(f"{s}t{i}") for i in range(3)]
-    w = [model.u(f"{s}w{i}") for i in range(2)]
+    if s in REALISTIC:
+        # the URL itself, so that its own last characters end the parameter
+        t = [model.u(s + x) for x in ("", "/b", "r")]
+        w = [model.u(s + x) for x in ("", "t")]
+        t = [t[1], t[2], t[0]]
+    else:
+        t = [model.u(f"{s}t{i}") for i in range(3)]
+        w = [model.u(f"{s}w{i}") for i in range(2)]
     if ann == "announce":
         meta[b"announce"] = t[0]
     elif ann == "list1":
@@ -118,7 +130,9 @@ class MagnetCheck:
             "{unknown info keys incl. non-UTF-8 byte strings}",
             "names and URLs: every string of length <= 2 (thorough 3) over an "
             "alphabet of URL-significant and non-ASCII tokens; all valid UTF-8",
-            "version requests: automatic for all; 1, 2, 3 for hybrids",
+            "version requests: automatic for all; 1, 2, 3 for hybrids; the URI "
+            "printed by `create --magnet` is judged as an automatic request",
+            "a few whole realistic URLs so that ordinary URL endings occur",
             "tr = flattened announce-list when present, else announce; a "
             "string url-list is one URL",
         ]
@@ -215,6 +229,39 @@ class MagnetCheck:
                                 url_list=[f"{s}w0"], comment=s)
                 res.states += 1
                 stages = [("created", raw)]
+                # the URI printed by `create --magnet`
+                if creator in ("TorrentFile", "Assembler2", "Assembler3"):
+                    import io
+                    import sys
+                    ver = {"TorrentFile": "1", "Assembler2": "2",
+                           "Assembler3": "3"}[creator]
+                    out2 = os.path.join(parent, "cm.torrent")
+                    buf = io.StringIO()
+                    so = sys.stdout
+                    try:
+                        sys.stdout = buf
+                        tf.cli.execute(["create", root, "-o", out2,
+                                        "--meta-version", ver, "--magnet",
+                                        "--prog", "0", "--piece-length",
+                                        str(P0), "-a", f"{s}t0"])
+                    finally:
+                        sys.stdout = so
+                    uris = [ln.strip() for ln in buf.getvalue().splitlines()
+                            if ln.strip().startswith("magnet:?")]
+                    with open(out2, "rb") as f:
+                        raw2 = f.read()
+                    probs = [("no-uri-printed", None)] if not uris else \
+                        judge(uris[-1], raw2, 0)
+                    res.transitions += 1
+                    res.evals += 1
+                    res.validated += 1
+                    res.outcomes["ok" if not probs else probs[0][0]] += 1
+                    for p, d in probs:
+                        res.violation(
+                            f"C11|create--magnet|{p}|v{ver}",
+                            {"kind": "own", "creator": creator, "s": s,
+                             "stage": "create--magnet", "req": 0,
+                             "seed": seed}, d)
                 with tf.quiet():
                     tf.edit.edit_torrent(out, {
                         "announce": [f"{s}T0"], "url-list": [f"{s}W0",
